@@ -530,9 +530,12 @@ class CIPDriver:
             _kwargs["sequence"] = self._sequence
         else:
             if route_path is True:
-                _kwargs["route_path"] = PADDED_EPATH.encode(
-                    self._cfg["cip_path"], length=True, pad_length=True
-                )
+                # the connection's route has a place only inside an Unconnected Send; a request
+                # sent directly through UCMM carries the caller's request data and nothing else
+                if unconnected_send:
+                    _kwargs["route_path"] = PADDED_EPATH.encode(
+                        self._cfg["cip_path"], length=True, pad_length=True
+                    )
             elif isinstance(route_path, str):
                 _kwargs["route_path"] = PADDED_EPATH.encode(
                     parse_cip_route(route_path), length=True, pad_length=True
